@@ -1,7 +1,87 @@
 import ComposeVerif.Ops.Common
-/-! line-protocol ops for C09 (filled in by the property's owner) -/
+import ComposeVerif.Model.Marshal
+import ComposeVerif.Model.Encode
+import ComposeVerif.Gen.Types
+/-! line-protocol ops for C09: `c09.marshal` / `c09.decode` (custom marshallers and decoders of package types) -/
+open Lean
 namespace CV.Ops.C09
+open CV CV.Marshal
 
-def handlers : List (String × Handler) := []
+def outJson : Out → Json
+  | .ok v => Json.mkObj [("ok", v.toJson)]
+  | .err c => Json.mkObj [("err", c)]
+  | .unmodelled w => Json.mkObj [("unmodelled", w)]
+
+def marshalOf (ty fmt : String) : Option (Val → Out) :=
+  match ty, fmt with
+  | "UnitBytes", "yaml" => some marshalY_UnitBytes
+  | "UnitBytes", "json" => some marshalJ_UnitBytes
+  | "Duration", _ => some marshal_Duration
+  | "DeviceCount", _ => some marshal_DeviceCount
+  | "ShellCommand", _ => some marshal_StrSlice          -- custom MarshalYAML keeps nil
+  | "HealthCheckTest", "yaml" | "StringList", "yaml" | "StringOrNumberList", "yaml" => some (nilAs (.seq []) marshal_StrSlice)
+  | "HealthCheckTest", _ | "StringList", _ | "StringOrNumberList", _ => some marshal_StrSlice
+  | "Mapping", "yaml" | "Labels", "yaml" | "Options", "yaml" => some (nilAs (.map []) marshal_StrMap)
+  | "Mapping", _ | "Labels", _ | "Options", _ => some marshal_StrMap
+  | "MappingWithEquals", "yaml" => some (nilAs (.map []) marshal_StrPtrMap)
+  | "MappingWithEquals", _ => some marshal_StrPtrMap
+  | "UlimitsConfig", "yaml" => some marshalY_Ulimits
+  | "UlimitsConfig", "json" => some marshalJ_Ulimits
+  | "EnvFile", "yaml" => some marshalY_EnvFile
+  | "EnvFile", "json" => some marshalJ_EnvFile
+  | "SSHConfig", "yaml" => some (nilAs (.seq []) marshalY_SSHConfig)
+  | "SSHConfig", "json" => some marshalJ_SSHConfig
+  | "HostsList", _ => some (nilAs (.seq []) marshal_HostsList)   -- `AsList` builds a non-nil list
+  | _, _ => none
+
+def sortById (xs : List Val) : List Val :=
+  let key : Val → String := fun v => match v with
+    | .map kvs => CV.Marshal.getStr kvs "ID"
+    | _ => ""
+  (xs.toArray.qsort (fun a b => key a < key b)).toList
+
+def decodeOf (ty : String) : Option (Val → Out) :=
+  match ty with
+  | "UnitBytes" => some decode_UnitBytes
+  | "Duration" => some decode_Duration
+  | "DeviceCount" => some decode_DeviceCount
+  | "ShellCommand" => some decode_ShellCommand
+  | "HealthCheckTest" => some decode_HealthCheckTest
+  | "StringList" => some decode_StringList
+  | "StringOrNumberList" => some decode_StringOrNumberList
+  | "Mapping" => some decode_Mapping
+  | "Labels" => some decode_Labels
+  | "Options" => some decode_Options
+  | "MappingWithEquals" => some decode_MappingWithEquals
+  | "UlimitsConfig" => some decode_Ulimits
+  | "EnvFile" => some decode_EnvFile
+  | "SSHConfig" => some fun v => match decode_SSHConfig v with
+    | .ok (.seq xs) => .ok (.seq (sortById xs))
+    | o => o
+  | "HostsList" => some decode_HostsList
+  | _ => none
+
+def marshalOp : Handler := fun args =>
+  match marshalOf (getStr args "type") (getStr args "fmt"), Val.ofJson (getObj args "v") with
+  | some f, .ok v => outJson (f v)
+  | none, _ => Json.mkObj [("bad", "type")]
+  | _, .error e => Json.mkObj [("bad", e)]
+
+def decodeOp : Handler := fun args =>
+  match decodeOf (getStr args "type"), Val.ofJson (getObj args "v") with
+  | some f, .ok v => outJson (f v)
+  | none, _ => Json.mkObj [("bad", "type")]
+  | _, .error e => Json.mkObj [("bad", e)]
+
+def genEnv : CV.Encode.Env := { structs := CV.Gen.structs, named := CV.Gen.namedTypes, customs := CV.Gen.customMethods }
+
+/-- tag-driven rendering of a typed value of a model type over the regenerated descriptors -/
+def structOp : Handler := fun args =>
+  let fmt := if getStr args "fmt" == "json" then CV.Encode.Fmt.json else CV.Encode.Fmt.yaml
+  match Val.ofJson (getObj args "v") with
+  | .ok v => outJson (CV.Encode.render genEnv fmt (getStr args "type") v)
+  | .error e => Json.mkObj [("bad", e)]
+
+def handlers : List (String × Handler) := [("c09.marshal", marshalOp), ("c09.decode", decodeOp), ("c09.struct", structOp)]
 
 end CV.Ops.C09
